@@ -236,6 +236,7 @@ def corrupt(tr, rng, how):
 
 
 def run(ctx):
+    ctx.liveness("Digest", unfair_control=not ctx.quick)      # termination under weak fairness (Digest_live.cfg)
     rng = np.random.default_rng(ctx.seed)
     # ---------------- (M) ----------------
     # the sensitivity configs (which only append to the run list) and the generation run go on side threads
